@@ -24,6 +24,7 @@ def consts(cfg):
         'AsyncHandlers': bool(cfg.get('async_handlers', False)),
         'MaxSid': cfg['max_sid'],
         'MaxAck': cfg.get('max_ack', 0),
+        'Dev': set(cfg.get('dev', [])),
     }
 
 
@@ -64,10 +65,10 @@ def run_config(name, cfg, invariants, log=print, workers=16):
         len(g['nodes']), len(g['edges']), g['depth'], g['wall']))
     mod, cfgc = mc_module('MCG', 'SioServerGraph', cfg, alphabet)
     cfgt = 'INIT GInit\nNEXT GNext\n' + cfgc + \
-        'INVARIANT AllEdgesOK\nINVARIANT AlphabetComplete\n' + \
-        ''.join('INVARIANT %s\n' % i for i in invariants)
-    r2 = tlc.run_tlc(wd, 'MCG', cfgt, env={'GRAPH_FILE': gf},
-                     modules={'MCG': mod}, workers=1)
+        'INVARIANT AllEdgesOK\nINVARIANT AlphabetComplete\n'
+    r2 = tlc.run_tlc(wd, 'MCG', cfgt, env={'GRAPH_FILE': gf,
+                                           'WITH_GHOSTS': '0'},
+                     modules={'MCG': mod}, workers=workers)
     log('G2: %r wall %.1fs' % (r2, r2.wall))
     for pr in r2.prints[:3]:
         log('   ' + pr[:1500])
